@@ -280,6 +280,61 @@ theorem seek_end_applied {σ : Type} {W : World} (hW : W.Ok) {D : Decoder σ ℝ
     show (if W.n ≤ seekLands s.transport (seekIndex s.sampleRate x) then false else s.transport.playing) = false
     simp [this]
 
+/-- `SeekEndPending` with `seek_by(k)` written instead of `seek_to(x)` -/
+structure SeekByEndPending {σ : Type} (W : World) (pos : σ → Nat) (good : σ → Prop) (s : Sys σ ℝ) (a m : Nat) (k : ℝ) :
+    Prop where
+  tIn : StreamIn W pos good s
+  tAt : StreamAt W s a m
+  alive : s.core.shared ≠ .stopped
+  kept : s.soundDropped = false
+  room : s.ring.isFull = false
+  noLoop : s.cmds.setLoopRegion = none
+  pending : s.cmds.seekBy = some k
+  noTo : s.cmds.seekTo = none
+  inData : seekIndex s.sampleRate (s.sharedPosition + k) ≤ W.frames.size
+  beyond : W.n ≤ seekLands s.transport (seekIndex s.sampleRate (s.sharedPosition + k))
+
+/-- `seek_end_applied` for a `seek_by` -/
+theorem seekBy_end_applied {σ : Type} {W : World} (hW : W.Ok) {D : Decoder σ ℝ} {pos : σ → Nat} {good : σ → Prop}
+    (C : Dec.Contract D W.frames.toList pos good) {s : Sys σ ℝ} {a m : Nat} {k : ℝ}
+    (P : SeekByEndPending W pos good s a m k) (fuel : Nat) (hfuel : W.frames.size < fuel) :
+    (Sys.run D fuel s).1 = .ok .end ∧ (Sys.run D fuel s).2.reachedEnd = true ∧
+    (Sys.run D fuel s).2.ring.items =
+      s.ring.items ++ [⟨Frame.zero, seekLands s.transport (seekIndex s.sampleRate (s.sharedPosition + k))⟩] ∧
+    (Sys.run D fuel s).2.transport.playing = false ∧
+    (Sys.run D fuel s).2.transport.position = seekLands s.transport (seekIndex s.sampleRate (s.sharedPosition + k)) ∧
+    (Sys.run D fuel s).2.cmds.seekBy = none ∧ (Sys.run D fuel s).2.core = s.core ∧
+    (Sys.run D fuel s).2.encounteredError = s.encounteredError := by
+  have hv : s.transport.ValidLoop W.n := by rw [P.tAt.transport]; exact (W.trAt_valid hW _).1
+  let s0 : Sys σ ℝ := { s with cmds := { s.cmds with seekBy := none } }
+  have hin0 : StreamIn W pos good s0 := ⟨P.tIn.cfg_slice, P.tIn.cfg_n, P.tIn.inv⟩
+  obtain ⟨ds', hinv', hs⟩ := seekToIndex_closed (D := D) C hin0 hv
+    (seekIndex s.sampleRate (s.sharedPosition + k)) P.inData
+  change Sys.seekToIndex D s0 _ = _ at hs
+  have hrun := run_seekBy D fuel s P.alive P.kept P.room P.noLoop k P.pending _ hs P.noTo
+  obtain ⟨ds'', _, hp⟩ := produce_stopped hW C
+    (s := { s0 with
+      transport := { s0.transport with
+        position := seekLands s0.transport (seekIndex s.sampleRate (s.sharedPosition + k))
+        playing := if W.n ≤ seekLands s0.transport (seekIndex s.sampleRate (s.sharedPosition + k)) then false
+                   else s0.transport.playing }
+      ds := ds' })
+    ⟨P.tIn.cfg_slice, P.tIn.cfg_n, hinv'⟩
+    (by
+      have := P.beyond
+      show (if W.n ≤ seekLands s.transport (seekIndex s.sampleRate (s.sharedPosition + k)) then false
+            else s.transport.playing) = false
+      simp [this])
+    P.room fuel hfuel
+  rw [hrun, hp]
+  refine ⟨rfl, rfl, ?_, ?_, rfl, rfl, rfl, rfl⟩
+  · show s.ring.items ++ [⟨W.srcAt (seekLands s.transport (seekIndex s.sampleRate (s.sharedPosition + k))), _⟩] = _
+    rw [W.srcAt_beyond _ P.beyond]
+  · have := P.beyond
+    show (if W.n ≤ seekLands s.transport (seekIndex s.sampleRate (s.sharedPosition + k)) then false
+          else s.transport.playing) = false
+    simp [this]
+
 /-- **draining after the decoder reached the end**: one iteration of the render loop whose position step pops `j`
     frames leaves the ring `j` shorter and marks the sound stopped exactly when that empties the ring -/
 theorem renderFrame_drain {σ : Type} (fuel : Nat) (s : Sys σ ℝ) (t dt : ℝ) (hre : s.reachedEnd = true)
@@ -498,6 +553,26 @@ theorem exSeekEnd_pending :
       show seekIndex 1 3 ≤ exEndWorld.frames.size
       rw [seekIndex_one_three]; simp [exEndWorld]
     beyond := by
+      show exEndWorld.n ≤ seekLands ⟨1, none, true⟩ (seekIndex 1 3)
+      rw [seekIndex_one_three]; simp [exEndWorld, World.n, seekLands] }
+
+/-- hypotheses of `C09_seek_by_past_end_decoder_ends`: `seek_by(3.0)` from published position 0 -/
+theorem exSeekByEnd_pending :
+    SeekByEndPending exEndWorld (fun p => p) (fun _ => True) (exEndSys { seekBy := some 3 }) 0 1 3 :=
+  have hz : (exEndSys { seekBy := some 3 }).sharedPosition + 3 = (3 : ℝ) := by simp [exEndSys, exSeekSys]
+  { tIn := { cfg_slice := rfl, cfg_n := by simp [exEndSys, exSeekSys, exEndWorld, World.n]
+             inv := { good_dec := trivial, cur_eq := rfl, chunk_ok := fun c hc => by simp [exEndSys, exSeekSys] at hc } }
+    tAt := { ring := by simp [exEndSys, exSeekSys, World.ringSlice, World.ringSeq], transport := rfl
+             m_pos := Nat.le_refl _, played := fun k hk => by omega, reached := rfl }
+    alive := by simp [exEndSys, exSeekSys, SoundCore.new]
+    kept := rfl, room := by simp [exEndSys, exSeekSys, Ring.isFull, bufferSize]
+    noLoop := rfl, pending := rfl, noTo := rfl
+    inData := by
+      rw [hz]
+      show seekIndex 1 3 ≤ exEndWorld.frames.size
+      rw [seekIndex_one_three]; simp [exEndWorld]
+    beyond := by
+      rw [hz]
       show exEndWorld.n ≤ seekLands ⟨1, none, true⟩ (seekIndex 1 3)
       rw [seekIndex_one_three]; simp [exEndWorld, World.n, seekLands] }
 
